@@ -22,7 +22,7 @@
    of discovered events (name, payload type string).
    Definitions only. *)
 From Coq Require Import String Ascii.
-From Coq Require Import List Arith Bool.
+From Coq Require Import List Arith Bool ZArith.
 Require Import TT.Model.Str TT.Model.TypeParse TT.Model.Render TT.Model.Pipeline.
 Require Import TT.Spec.TsLex TT.Spec.TsModule TT.Spec.TsObs TT.Spec.C01Wf.
 Import ListNotations.
@@ -162,6 +162,8 @@ Definition apply_variant (r : rule) (s : str) : str :=
   end.
 Definition default_rule (cfg_case : str) : rule := match rule_of cfg_case with Some r => r | None => RCamel end.
 
+(* syn::ext::IdentExt::unraw where function, parameter, channel-parameter, field and variant names are read *)
+Definition unraw (s : str) : str := if starts (L "r#") s then skipn 2 s else s.
 (* compute_field_name / compute_parameter_name *)
 Definition serialized (name : str) (rename : option str) (rename_all : option rule) (dflt : str) : str :=
   match rename with
@@ -169,19 +171,20 @@ Definition serialized (name : str) (rename : option str) (rename_all : option ru
   | None => match rename_all with Some r => apply_rule r name | None => apply_rule (default_rule dflt) name end
   end.
 Definition field_ser (g : c_cfg) (s : c_struct) (f : c_field) : str :=
-  serialized (cf_name f) (c_rename (cf_serde f)) (c_rename_all (cs_serde s)) (g_field_case g).
+  serialized (unraw (cf_name f)) (c_rename (cf_serde f)) (c_rename_all (cs_serde s)) (g_field_case g).
 Definition param_ser (g : c_cfg) (c : c_cmd) (name : str) : str :=
-  serialized name None (c_rename_all (cc_serde c)) (g_param_case g).
-Definition fn_ts (c : c_cmd) : str := camel2 (cc_name c).
+  serialized (unraw name) None (c_rename_all (cc_serde c)) (g_param_case g).
+Definition cmd_name (c : c_cmd) : str := unraw (cc_name c).
+Definition fn_ts (c : c_cmd) : str := camel2 (cmd_name c).
 (* compute_variant_name: explicit rename, else the variant form of the container rule, else the Rust name *)
 Definition variant_ser (s : c_struct) (f : c_field) : str :=
   match c_rename (cf_serde f) with
   | Some v => v
-  | None => match c_rename_all (cs_serde s) with Some r => apply_variant r (cf_name f) | None => cf_name f end
+  | None => match c_rename_all (cs_serde s) with Some r => apply_variant r (unraw (cf_name f)) | None => unraw (cf_name f) end
   end.
 (* parse_enum drops variants carrying serde(skip) *)
 Definition listed_variants (s : c_struct) : list c_field := filter (fun f => negb (c_skipped (cf_serde f))) (cs_fields s).
-Definition ty_ts (c : c_cmd) : str := pascal true (cc_name c).
+Definition ty_ts (c : c_cmd) : str := pascal true (cmd_name c).
 (* event_name_to_function *)
 Definition ascii_alnum (c : ascii) : bool := lowerp c || upperp c || is_digit c.
 Definition us_of_other (c : ascii) : ascii := if ascii_alnum c then c else "_"%char.
@@ -206,10 +209,80 @@ Fixpoint render_m (g : c_cfg) (t : tstruct) : str :=
   | TRes u => render_m g u
   | TCustom n => custom_ts g n
   end.
-Definition pts (s : str) : tstruct := match parse_type_structure s with Some t => t | None => TCustom s end.
+(* type_resolver.rs find_top_level_comma / split_top_level: commas outside <>, () and [] (signed depth) *)
+Definition opens (c : ascii) : bool := existsb (Ascii.eqb c) (L "<([").
+Definition closes (c : ascii) : bool := existsb (Ascii.eqb c) (L ">)]").
+Fixpoint top_comma_go (d : Z) (pre : str) (s : str) : option (str * str) :=
+  match s with
+  | [] => None
+  | b :: s' =>
+      if opens b then top_comma_go (d + 1)%Z (b :: pre) s'
+      else if closes b then top_comma_go (d - 1)%Z (b :: pre) s'
+      else if Ascii.eqb b ","%char && (d =? 0)%Z then Some (rev pre, s')
+      else top_comma_go d (b :: pre) s'
+  end.
+Definition top_comma (s : str) : option (str * str) := top_comma_go 0%Z [] s.
+Fixpoint split_top (fuel : nat) (s : str) : list str :=
+  match fuel with
+  | 0 => [s]
+  | S f => match top_comma s with Some (a, b) => a :: split_top f b | None => [s] end
+  end.
+Definition top2 (s : str) : option (str * str) :=
+  match top_comma s with Some (k, v) => Some (trim k, trim v) | None => None end.
+(* TypeResolver::parse_type_structure after the repair of the comma splitting (same order of tests as
+   Model/TypeParse.v parse, which keeps the earlier behaviour) *)
+Fixpoint parse3 (fuel : nat) (s0 : str) : option tstruct :=
+  match fuel with
+  | 0 => None
+  | S f =>
+    let s := trim s0 in
+    if starts (L "&") s then parse3 f (skipn 1 s) else
+    match wrapped "Option<" s with Some inner => option_map TOpt (parse3 f inner) | None =>
+    match wrapped "Result<" s with
+    | Some inner =>
+        let ok := match top_comma inner with Some (a, _) => trim a | None => inner end in
+        option_map TRes (parse3 f ok)
+    | None =>
+    match wrapped "Vec<" s with Some inner => option_map TArr (parse3 f inner) | None =>
+    match (match wrapped "HashMap<" s with Some inner => top2 inner | None => None end),
+          (match wrapped "BTreeMap<" s with Some inner => top2 inner | None => None end) with
+    | Some (k, v), _ | None, Some (k, v) =>
+        match parse3 f k, parse3 f v with Some k', Some v' => Some (TMap k' v') | _, _ => None end
+    | None, None =>
+    match (match wrapped "HashSet<" s with Some i => Some i | None => wrapped "BTreeSet<" s end) with
+    | Some inner => option_map TSet (parse3 f inner)
+    | None =>
+    if starts (L "(") s && ends_with ")"%char s then
+      let inner := mid 1 1 s in
+      if all_blank inner then Some (TPrim (L "void"))
+      else option_map TTuple (mapM (parse3 f) (map trim (split_top (S (List.length inner)) inner)))
+    else match prim_of s with Some p => Some (TPrim p) | None => Some (TCustom s) end
+    end end end end end
+  end.
+Definition pts (s : str) : tstruct := match parse3 (S (List.length s)) s with Some t => t | None => TCustom s end.
+(* base/templates.rs add_types_prefix after the repair of the array branch (recursion on the element type) *)
+Local Open Scope string_scope.
+Fixpoint atp3 (fuel : nat) (s : str) : str :=
+  match fuel with 0 => s | S f =>
+  if name_in s ["void"; "string"; "number"; "boolean"; "any"; "unknown"; "null"; "undefined"] then s else
+  match strip_suffix (L "[]") s with
+  | Some base => (atp3 f base ++ L "[]")%list
+  | None =>
+    if starts (L "Record<") s || starts (L "Map<") s then s else
+    match strip_suffix (L " | null") s with
+    | Some base => (atp3 f base ++ L " | null")%list
+    | None =>
+      match strip_suffix (L " | undefined") s with
+      | Some base => (atp3 f base ++ L " | undefined")%list
+      | None =>
+        if starts (L "[") s && ends_with "]"%char s then s
+        else if starts (L "types.") s then s else (L "types." ++ s)%list
+      end end end end.
+Local Close Scope string_scope.
+Definition add_types_prefix3 (s : str) : str := atp3 (S (List.length s)) s.
 Definition ts_text (g : c_cfg) (t : qty) : str := render_m g (pts (qtts t)).
 Definition ret_text (g : c_cfg) (c : c_cmd) : str :=
-  add_types_prefix (render_m g (pts (match cc_ret c with Some t => qtts t | None => L "()" end))).
+  add_types_prefix3 (render_m g (pts (match cc_ret c with Some t => qtts t | None => L "()" end))).
 
 (* zod/type_visitor.rs visit_custom *)
 Definition custom_z (g : c_cfg) (n : str) : str :=
@@ -291,10 +364,18 @@ Definition nonempty {A} (l : list A) : bool := match l with [] => false | _ => t
 Definition any_channels (cmds : list c_cmd) : bool := existsb (fun c => nonempty (c_channels c)) cmds.
 
 (* ------------------------------------------------------------------ plain mode: types.ts *)
+(* the ts_key filter (base/templates.rs): an identifier name stays bare, anything else becomes a double-quoted
+   escaped literal. is_identifier_name uses char::is_alphabetic / is_alphanumeric; on bytes every non-ASCII
+   byte counts as a letter here (the code quotes names with non-alphabetic non-ASCII characters as well:
+   the difference is only towards more quoting) *)
+Definition key_chunk (k : str) : chunk := if is_ts_identifier k then Hole HKey k else Hole (HStr DQ) (escape_js k).
+(* ts_key(member=true): .name or ["na-me"] *)
+Definition member_access (k : str) : list chunk :=
+  if is_ts_identifier k then [F "."; Hole HKey k] else [F "["; Hole (HStr DQ) (escape_js k); F "]"].
 Definition member_chunks (key : str) (opt : bool) (ty : str) : list chunk :=
-  [F " "; Hole HKey key] ++ (if opt then [F "?"] else []) ++ [F ": "; Hole HType ty; F ";"; NL].
+  [F " "; key_chunk key] ++ (if opt then [F "?"] else []) ++ [F ": "; Hole HType ty; F ";"; NL].
 Definition channel_member (g : c_cfg) (c : c_cmd) (ch : str * qty) : list chunk :=
-  [F " "; Hole HKey (param_ser g c (fst ch)); F ": Channel<"; Hole HType (ts_text g (snd ch)); F ">;"; NL].
+  [F " "; key_chunk (param_ser g c (fst ch)); F ": Channel<"; Hole HType (ts_text g (snd ch)); F ">;"; NL].
 
 Definition interface_chunks (g : c_cfg) (s : c_struct) : list chunk :=
   [F "export interface "; Hole HTyName (cs_name s); F " {"] ++
@@ -303,8 +384,8 @@ Definition interface_chunks (g : c_cfg) (s : c_struct) : list chunk :=
 Fixpoint enum_alts (g : c_cfg) (s : c_struct) (l : list c_field) : list chunk :=
   match l with
   | [] => []
-  | [f] => [Hole (HStr DQ) (variant_ser s f)]
-  | f :: r => Hole (HStr DQ) (variant_ser s f) :: F " | " :: enum_alts g s r
+  | [f] => [Hole (HStr DQ) (escape_js (variant_ser s f))]
+  | f :: r => Hole (HStr DQ) (escape_js (variant_ser s f)) :: F " | " :: enum_alts g s r
   end.
 Definition enum_chunks (g : c_cfg) (s : c_struct) : list chunk :=
   [F "export type "; Hole HTyName (cs_name s); F " = "] ++ enum_alts g s (listed_variants s) ++ [F "; "].
@@ -335,14 +416,14 @@ Definition wrapper_chunks (g : c_cfg) (c : c_cmd) : list chunk :=
   let has := nonempty (c_values c) || nonempty (c_channels c) in
   [F "export async function "; Hole HFn (fn_ts c); F "("] ++
   (if has then [F "params: types."; Hole HKey (ty_ts c ++ L "Params")] else []) ++
-  [F "): Promise<"; Hole HType (ret_text g c); F "> { return invoke("; Hole (HStr SQ) (cc_name c)] ++
+  [F "): Promise<"; Hole HType (ret_text g c); F "> { return invoke("; Hole (HStr SQ) (cmd_name c)] ++
   (if has then [F ", params"] else []) ++ [F "); } "].
 Definition plain_commands (g : c_cfg) (cmds : list c_cmd) : cfile :=
   {| fl_prefix := invoke_import cmds ++ [F "import * as types from './types'; "];
      fl_required := map (wrapper_chunks g) cmds; fl_optional := [] |}.
 
 (* ------------------------------------------------------------------ events.ts (same partial in both modes) *)
-Definition payload_text (g : c_cfg) (e : c_event) : str := add_types_prefix (render_m g (pts (ce_payload e))).
+Definition payload_text (g : c_cfg) (e : c_event) : str := add_types_prefix3 (render_m g (pts (ce_payload e))).
 Definition listener_chunks (g : c_cfg) (e : c_event) : list chunk :=
   [F "export async function "; Hole HFn (event_fn (ce_name e)); F "("; NL; F " handler: (payload: "; Hole HType (payload_text g e);
    F ") => void ): Promise<UnlistenFn> { return listen<"; Hole HType (payload_text g e); F ">("; Hole (HStr SQ) (ce_name e);
@@ -370,18 +451,18 @@ Definition zod_struct_chunks (g : c_cfg) (s : c_struct) : list chunk :=
     (* generate_enum_schema: format!, values joined by ", " (a trailing comma is token-different, so join exactly) *)
     [F "export const "; Hole HTyName (cs_name s ++ L "Schema"); F " = z.enum(["] ++
     (fix go (l : list c_field) : list chunk :=
-       match l with [] => [] | [f] => [Hole (HStr DQ) (variant_ser s f)]
-       | f :: r => Hole (HStr DQ) (variant_ser s f) :: F ", " :: go r end) (listed_variants s) ++
+       match l with [] => [] | [f] => [Hole (HStr DQ) (escape_js (variant_ser s f))]
+       | f :: r => Hole (HStr DQ) (escape_js (variant_ser s f)) :: F ", " :: go r end) (listed_variants s) ++
     [F "]); export type "; Hole HTyName (cs_name s); F " = z.infer<typeof "; Hole HKey (cs_name s ++ L "Schema"); F ">; "]
   else
     [F "export const "; Hole HTyName (cs_name s ++ L "Schema"); F " = z.object({"] ++
-    flat_map (fun f => if c_skipped (cf_serde f) then [] else [F " "; Hole HKey (field_ser g s f); F ": "; Hole HZ (field_schema g f); F ","; NL]) (cs_fields s) ++
+    flat_map (fun f => if c_skipped (cf_serde f) then [] else [F " "; key_chunk (field_ser g s f); F ": "; Hole HZ (field_schema g f); F ","; NL]) (cs_fields s) ++
     [F " }); export type "; Hole HTyName (cs_name s); F " = z.infer<typeof "; Hole HKey (cs_name s ++ L "Schema"); F ">; "].
 Definition zod_param_schema_chunks (g : c_cfg) (c : c_cmd) : list chunk :=
   match c_values c with
   | [] => []
   | vs => [F "export const "; Hole HTyName (ty_ts c ++ L "ParamsSchema"); F " = z.object({"] ++
-          flat_map (fun p => [F " "; Hole HKey (param_ser g c (fst p)); F ": ";
+          flat_map (fun p => [F " "; key_chunk (param_ser g c (fst p)); F ": ";
                               Hole HZ (param_schema g (snd p) ++ (if is_option (snd p) then L ".optional()" else [])); F ","; NL]) vs ++
           [F " }); "]
   end.
@@ -404,14 +485,14 @@ Definition hooks_chunks : list chunk := [F
 Fixpoint chan_refs (g : c_cfg) (c : c_cmd) (l : list (str * qty)) : list chunk :=
   match l with
   | [] => []
-  | [ch] => [Hole HKey (param_ser g c (fst ch)); F ": params."; Hole HKey (param_ser g c (fst ch))]
-  | ch :: r => [Hole HKey (param_ser g c (fst ch)); F ": params."; Hole HKey (param_ser g c (fst ch)); F ", "] ++ chan_refs g c r
+  | [ch] => [key_chunk (param_ser g c (fst ch)); F ": params"] ++ member_access (param_ser g c (fst ch))
+  | ch :: r => [key_chunk (param_ser g c (fst ch)); F ": params"] ++ member_access (param_ser g c (fst ch)) ++ [F ", "] ++ chan_refs g c r
   end.
 Definition zod_wrapper_chunks (g : c_cfg) (c : c_cmd) : list chunk :=
   let ret := Hole HType (ret_text g c) in
   let hp := nonempty (c_values c) in
   let hc := nonempty (c_channels c) in
-  let nm := Hole (HStr SQ) (cc_name c) in
+  let nm := Hole (HStr SQ) (cmd_name c) in
   if hp || hc then
     [F "export async function "; Hole HFn (fn_ts c); F "(params: types."; Hole HKey (ty_ts c ++ L "Params"); F ", hooks?: CommandHooks<"; ret;
      F ">): Promise<"; ret; F "> { try { "] ++
@@ -505,17 +586,16 @@ Definition has_sub (pat : string) (s : str) : bool := contains (L pat) s.
 Definition any_char (cs : string) (s : str) : bool := existsb (fun c => existsb (Ascii.eqb c) (L cs)) s.
 (* identifier of the recorded class a bad hole belongs to; None = not a recorded defect *)
 Definition bad_class (h : hclass) (s : str) : option string :=
-  if has_sub "r#" s || has_sub "R#" s then Some "C01-raw-ident"%string else
   if (match h with HFn | HTyName | HKey => true | _ => false end) &&
      (match s with c :: _ => is_digit c | [] => false end) && forallb is_id_char s && negb (num_ok s)
   then Some "C01-digit-first"%string else
   match h with
-  | HKey => Some "C01-bare-key"%string
+  | HKey => None
   | HFn => if is_ts_identifier s then Some "C01-reserved-fn"%string
            else None
   | HType | HZ => if has_sub "::" s then Some "C01-path-leak"%string
                   else if has_sub "types.[" s then Some "C01-prefix-tuple"%string
-                  else if any_char "<>()," s then Some "C01-half-generic"%string else None
-  | HStr q => if ends_with "\"%char s then Some "C01-literal-backslash"%string else None
+                  else None
+  | HStr q => None
   | HTyName => None
   end.
